@@ -440,11 +440,47 @@ void cmp()
 }
 }
 
+// ---- the NON-CONST access paths: vector &pos(), vector &max() and the non-const element accessors they return
+template <typename T, sz N>
+void mutate()
+{
+  abox<T, N> const A{fresh_box<T, N>("A_lo", "A_hi")};
+  apt<T, N> const P{fresh_pt<T, N>("p")}, V{fresh_pt<T, N>("v")};
+  unsigned const op{verif_u8("op")};
+  verif_assume(op < 4);
+  box_t<T, N> b{mkbox(A)};              // non-const
+  box_t<T, N> const &cb{b};             // const view of the same object
+  for (sz i = 0; i < N; ++i)
+  {
+    verif_assert(b.pos().get_unsafe(i) == A.lo[i] && b.max().get_unsafe(i) == A.hi[i], "non-const pos()/max() read the corners");
+    verif_assert(b.pos().get_unsafe(i) == cb.pos().get_unsafe(i) && b.max().get_unsafe(i) == cb.max().get_unsafe(i), "non-const and const accessors read the same values");
+  }
+  verif_assert(&b.pos() == &cb.pos() && &b.max() == &cb.max() && &b.pos() != &b.max(), "non-const and const accessors designate the same two member vectors");
+  abox<T, N> E{A};
+  switch (op)
+  {
+  case 0: b.max() = mkvec<T, N>(V.c); for (sz i = 0; i < N; ++i) E.hi[i] = V.c[i]; break;
+  case 1: b.pos() = mkvec<T, N>(V.c); for (sz i = 0; i < N; ++i) E.lo[i] = V.c[i]; break;
+  case 2: b.max().get_unsafe(N - 1) = V.c[0]; E.hi[N - 1] = V.c[0]; break;   // one coordinate through the element accessor
+  default: b.pos().x() = V.c[0]; E.lo[0] = V.c[0]; break;
+  }
+  verif_out("member", in(E, P));
+  verif_assert(same(rd(cb), E), "writing through max()/pos() changes exactly that corner");
+  verif_assert(fcppt::math::box::contains_point(cb, mkvec<T, N>(P.c)) == in(E, P), "contains_point sees the modified corner");
+  dim_t<T, N> const s{cb.size()};
+  for (sz i = 0; i < N; ++i) verif_assert(s.get_unsafe(i) == static_cast<T>(E.hi[i] - E.lo[i]), "size() = max - pos after the modification");
+  verif_assert(cb == mkbox(E), "the modified box equals the box built from the new corners");
+  verif_assert(cb.left() == E.lo[0] && cb.right() == E.hi[0], "left()/right() see the modification");
+  verif_reach("mutate-end");
+}
+
 #define H(name, ...) VERIF_HARNESS(name) { __VA_ARGS__; }
 #define ROW(T, TN, N) \
   H(h_basic_##TN##_##N, basic<T, N>()) H(h_inter_##TN##_##N, inter<T, N>()) H(h_cont_##TN##_##N, cont<T, N>()) \
   H(h_extend_##TN##_##N, extend<T, N>()) H(h_extend_pt_##TN##_##N, extend_pt<T, N>()) H(h_corners_##TN##_##N, corners<T, N>()) \
   H(h_resize_##TN##_##N, resize<T, N>()) H(h_cmp_##TN##_##N, cmp<T, N>())
+H(h_mutate_int_1, mutate<int, 1>()) H(h_mutate_int_2, mutate<int, 2>()) H(h_mutate_int_3, mutate<int, 3>()) H(h_mutate_uint_1, mutate<unsigned, 1>()) H(h_mutate_uint_2, mutate<unsigned, 2>()) H(h_mutate_uint_3, mutate<unsigned, 3>())
+//@harness h_mutate_{T}_{N} for T in int,uint for N in 1,2,3 tier=quick loop=40
 ROW(int, int, 1) ROW(int, int, 2) ROW(int, int, 3) ROW(unsigned, uint, 1) ROW(unsigned, uint, 2) ROW(unsigned, uint, 3)
 H(h_dist_int_1, dist<int, 1>()) H(h_dist_int_2, dist<int, 2>()) H(h_dist_int_3, dist<int, 3>())
 //@harness h_basic_{T}_{N} for T in int,uint for N in 1,2,3 tier=quick loop=40
